@@ -142,7 +142,7 @@ theorem stepG {env : Env} {file : AFile} {G : List String} {P : Prog} {F : GFile
               rw [hgname]
               simp only [fnName, hne, Bool.false_eq_true, if_false]
               unfold vn; rw [hrn]
-            have hcallr := hu g hgmem hG' η [.structV n' vs] [gv] w gw hfx.eq
+            have hcallr := hu g hgmem hG' η [.structV n' vs] [gv] w gw hfx.eq hfx.deq
               (by rw [hps']; exact ⟨h3, h4', trivial⟩) hw
             rw [hfn] at hcallr
             revert hcallr
